@@ -388,3 +388,28 @@ Proof.
   destruct (find_plugin [] inst df (strip_suffix g s_suffixes) NNone (Some (97%N :: sfx))) as [k| | |]; try discriminate.
   apply has_name_sound in T as [n Hn]. now exists n, k.
 Qed.
+
+(* a file-name suffix that resolved keeps resolving to the same class through any history
+   without a forced registration of that suffix *)
+Lemma find_by_suffix_stable inst df cs r g fl k d :
+  dget df g = Some d -> fl <> [] ->
+  lookup1 r inst (g ++ s_suffixes) (snd (splitext fl)) = Some k ->
+  Forall (fun x => ~ forces (g ++ s_suffixes) (snd (splitext fl)) x) cs ->
+  find_plugin r inst df g NNone (Some fl) = Ok k /\
+  find_plugin (snd (run inst df r cs)) inst df g NNone (Some fl) = Ok k.
+Proof.
+  intros D N L F. unfold find_plugin, load_entry_point. rewrite D. destruct fl as [|c fl]; [congruence|].
+  rewrite L. now rewrite (replaced_only_when_forced inst df cs r _ _ k L F).
+Qed.
+
+(* register_then_find for all later histories: once registered, a name stays found -- as the
+   registered class -- until somebody forces a replacement of exactly that name *)
+Lemma registered_stays_found inst df cs r g c n k force r' d fl :
+  register_plugin r inst df g (c :: n) k force = (Ok true, r') ->
+  dget df g = Some d -> k_is_none k = false ->
+  Forall (fun x => ~ forces g (c :: n) x) cs ->
+  find_plugin (snd (run inst df r' cs)) inst df g (NStr (c :: n)) fl = Ok k.
+Proof.
+  intros H D K F. apply register_cases in H as [[_ C]|(_ & -> & _)]; [congruence|].
+  eapply find_by_name_stable; eauto. now apply lookup1_registered_same.
+Qed.
